@@ -777,7 +777,8 @@ keyword(vbi_link *ld, uint8_t *p, int column,
 
 	if (isdigit(*s)) {
 		for (i = 0; isdigit(s[i]); i++)
-			ld->pgno = ld->pgno * 16 + (s[i] & 15);
+			if (i < 4) /* longer runs are no page number */
+				ld->pgno = ld->pgno * 16 + (s[i] & 15);
 
 		if (isdigit(s[-1]) || i > 3)
 			return i;
@@ -795,7 +796,8 @@ keyword(vbi_link *ld, uint8_t *p, int column,
 		s += i += 1;
 
 		for (ld->subno = j = 0; isdigit(s[j]); j++)
-			ld->subno = ld->subno * 16 + (s[j] & 15);
+			if (j < 4) /* longer runs are no subpage number */
+				ld->subno = ld->subno * 16 + (s[j] & 15);
 
 		if (j > 1 || subno != ld->pgno || ld->subno > 0x99)
 			return i + j;
